@@ -1,6 +1,6 @@
 (* C15 - Unsupported or invalid database headers are refused, valid ones
    accepted.  Property theorems only; proofs are in Proofs/. *)
-From SQ Require Import Model.Base Model.Header Proofs.HeaderP.
+From SQ Require Import Model.Base Model.Header Proofs.HeaderP Gen.Layout Proofs.LayoutP.
 
 (* exactly the headers of plain UTF-8 rollback-journal databases of a legal
    page size are accepted, and the page size read is the declared one *)
@@ -52,3 +52,15 @@ Definition sample_header : list byte :=
            [0; 0; 0; 0; 0; 0; 0; 0; 0; 0; 0; 1] ++ repeat 0 12 ++ repeat 0 20 ++ [0; 0; 0; 7; 0; 46; 91; 9])%Z.
 Example C15_sample : parse_header sample_header = Ok {| h_pagesize := 65536; h_change := 7; h_cookie := 2 |}.
 Proof. vm_compute. reflexivity. Qed.
+
+(* the offsets, widths and signedness the model reads the header fields with are those of the struct the source decodes the
+   100 bytes into (Gen/Layout.v is translated from parseHeader's struct literal and its binary.Read(.., binary.BigEndian, ..)
+   on every build), and the source's struct names no field the model does not read *)
+Theorem C15_source_layout :
+  go_header_struct_size = 100%Z /\
+  forall name x, In (name, x) model_header_reads -> go_field go_header_fields name = Some x.
+Proof. exact header_layout. Qed.
+Print Assumptions C15_source_layout.
+Theorem C15_source_fields_modelled : map fst go_header_fields = map fst model_header_reads.
+Proof. exact header_fields_all_modelled. Qed.
+Print Assumptions C15_source_fields_modelled.
